@@ -205,10 +205,22 @@ def build(p, seed):
     if sal is not None and p['saliency'] == 'one_zero' and \
             -1 not in (M.norm_axes(wca, len(lead) + 2) if not isinstance(wca, int) else (wca,)):
         skip = (N // 2,)    # per-frame weights and zero saliency: no class has mass there
+    axes_ = M.norm_axes(wca, len(lead) + 2) if not isinstance(wca, int) else (wca,)
+    if mask is not None and -1 not in axes_:
+        # per-frame weights and a frame in which the mask switches every source off: no class has mass there
+        off = np.where(~mask.any(-2).reshape(-1, N).all(0))[0].tolist()
+        skip = tuple(sorted(set(skip) | set(off)))
     empty = False
     if not isinstance(init, int):
         mass = init if sal is None else init * sal[..., None, :]
+        if mask is not None:
+            mass = mass * mask
         empty = bool((np.broadcast_to(mass, lead + (K, N)).sum(-1) <= 0).any())
+    else:
+        if sal is not None:
+            empty = bool((sal.sum(-1) <= 0).any())     # no saliency mass at all: every class is empty
+        if mask is not None:
+            empty = empty or bool((mask.sum(-1) <= 0).any())
     return dict(model=model, data=data, init=init, opts=opts, K=K, N=N, lead=lead, mask=mask,
                 eps=eps_used, rng_seed=rng_seed, integ=integ, single=single, skip=skip,
                 empty_class=empty,
@@ -248,10 +260,17 @@ def run_config(key):
     if len(trace) != p['iterations']:
         return viol(f'hook saw {len(trace)} iterations, expected {p["iterations"]}')
     # (1) every affiliation handed to an M-step after an E-step
+    # with an inline aligner the rows handed to the M-step are re-ordered on purpose: the class-indexed
+    # mask then no longer refers to the same rows, only the distribution property is judged there
+    aligned = p['aligner'] in ('greedy', 'dhtv')
     for it, aff in trace[1:]:
+        mask_t = None if aligned else c['mask']
+        skip_t = c['skip']
+        if aligned and c['mask'] is not None:
+            skip_t = tuple(sorted(set(skip_t) | set(np.where(~c['mask'].any(-2).reshape(-1, N).all(0))[0].tolist())))
         bad = check_distribution(aff, aff_shape, f'E-step result of iteration {it}', K,
-                                 eps=c['eps'], mask=c['mask'], exact_zero=(c['eps'] == 0),
-                                 skip_frames=c['skip'])
+                                 eps=c['eps'], mask=mask_t, exact_zero=(c['eps'] == 0),
+                                 skip_frames=skip_t)
         if bad:
             return viol(f'{model}: {bad}')
     bad = check_distribution(post, aff_shape, 'predict', K, eps=0.0, mask=c['mask'],
@@ -274,6 +293,9 @@ def run_config(key):
         return viol(f'{model}: non-finite component log_pdf or weights on regular data')
     if c['degenerate'] and (pi.sum(-2) <= 0).any():
         return trivial('class without mass', outcome=tol.digest(post))
+    if model == 'cbmm' and np.abs(np.asarray(m.complex_bingham.covariance_eigenvalues)).max() > 1e6:
+        return trivial('Bingham concentration > 1e6: the density is numerically ill defined',
+                       outcome=tol.digest(post))
     want = M.bayes(logp, pi, mask=c['mask'])
     rt = 2e-4 if c['single'] else tol.TIGHT
     badm = tol.mismatch(post, want, rt, what=f'{model} posterior vs Bayes rule')
